@@ -1040,65 +1040,104 @@ type RetAlt struct {
 // each with the guards of its incoming edge.
 func (P *Prog) RetAlternatives(f *ssa.Function, idx int) []RetAlt {
 	var out []RetAlt
-	var expand func(v ssa.Value, at ssa.Instruction, g []Atom, ret *ssa.Return, depth int)
-	expand = func(v ssa.Value, at ssa.Instruction, g []Atom, ret *ssa.Return, depth int) {
-		if phi, ok := v.(*ssa.Phi); ok && depth < 4 {
-			pb := phi.Block()
-			for i, e := range phi.Edges {
-				if i >= len(pb.Preds) {
-					continue
-				}
-				p := pb.Preds[i]
-				k := 0
-				for j, s := range p.Succs {
-					if s == pb {
-						k = j
-					}
-				}
-				expand(e, phi, dedupeAtoms(append(append([]Atom{}, g...), P.EdgeGuards(p, k)...)), ret, depth+1)
-			}
-			return
-		}
-		// `return helper(x)` / `v, err := helper(x) … return v, err` with a helper introduced by a refactoring: the
-		// alternatives are the helper's, rendered over this function's values
-		var call *ssa.Call
-		ridx := 0
-		if ex, ok := v.(*ssa.Extract); ok {
-			if c, ok := ex.Tuple.(*ssa.Call); ok {
-				call, ridx = c, ex.Index
-			}
-		} else if c, ok := v.(*ssa.Call); ok {
-			call = c
-		}
-		if call != nil && depth < 4 {
-			if h := staticCallee(&call.Call); h != nil && h != f && !retAltBusy[h] && P.isNewHelper(h) && ridx < h.Signature.Results().Len() {
-				prev, had := helperCtx[h]
-				setHelperCtx(h, call)
-				retAltBusy[h] = true
-				sub := P.RetAlternatives(h, ridx)
-				delete(retAltBusy, h)
-				if had {
-					helperCtx[h] = prev
-				} else {
-					delete(helperCtx, h)
-				}
-				if len(sub) > 0 {
-					for _, a := range sub {
-						out = append(out, RetAlt{a.T, dedupeAtoms(append(append([]Atom{}, g...), a.G...)), ret})
-					}
-					return
-				}
-			}
-		}
-		out = append(out, RetAlt{P.TermAt(v, at), g, ret})
-	}
 	for _, ret := range Returns(f) {
 		if idx >= len(ret.Results) {
 			continue
 		}
-		expand(ret.Results[idx], ret, P.LocalGuards(ret), ret, 0)
+		// a return that several branches jump to (`if a || b || c { return false }`): one alternative per incoming
+		// edge, each with the guards of its edge, as if every disjunct had its own return
+		if edges := P.retEntryEdges(ret); len(edges) > 1 {
+			if _, isPhi := ret.Results[idx].(*ssa.Phi); !isPhi || ret.Results[idx].(*ssa.Phi).Block() != ret.Block() {
+				for _, e := range edges {
+					P.expandAlts(ret.Results[idx], ret, e, ret, 0, f, &out)
+				}
+				continue
+			}
+		}
+		P.expandAlts(ret.Results[idx], ret, P.LocalGuards(ret), ret, 0, f, &out)
 	}
 	return out
+}
+
+// retEntryEdges: when the block of ret holds nothing but the return (and value-free jumps lead to it), the guard
+// sets of the edges entering it; nil when the block does more than return or has a single entry.
+func (P *Prog) retEntryEdges(ret *ssa.Return) [][]Atom {
+	b := ret.Block()
+	if len(b.Instrs) != 1 || len(b.Preds) < 2 || len(b.Preds) > 6 {
+		return nil
+	}
+	var out [][]Atom
+	for _, p := range b.Preds {
+		k := 0
+		for j, s := range p.Succs {
+			if s == b {
+				k = j
+			}
+		}
+		out = append(out, P.EdgeGuards(p, k))
+	}
+	return out
+}
+
+// Alternatives lists the ways value v, used by instruction at, is produced (see RetAlternatives): a merged value is
+// split into its incoming values with the guards of their edges, the result of a helper introduced by a refactoring
+// into that helper's return alternatives.
+func (P *Prog) Alternatives(v ssa.Value, at ssa.Instruction) []RetAlt {
+	var out []RetAlt
+	P.expandAlts(v, at, P.LocalGuards(at), nil, 0, at.Parent(), &out)
+	return out
+}
+
+func (P *Prog) expandAlts(v ssa.Value, at ssa.Instruction, g []Atom, ret *ssa.Return, depth int, f *ssa.Function, out *[]RetAlt) {
+	if phi, ok := v.(*ssa.Phi); ok && depth < 4 {
+		pb := phi.Block()
+		for i, e := range phi.Edges {
+			if i >= len(pb.Preds) {
+				continue
+			}
+			p := pb.Preds[i]
+			k := 0
+			for j, s := range p.Succs {
+				if s == pb {
+					k = j
+				}
+			}
+			P.expandAlts(e, phi, dedupeAtoms(append(append([]Atom{}, g...), P.EdgeGuards(p, k)...)), ret, depth+1, f, out)
+		}
+		return
+	}
+	// `return helper(x)` / `v, err := helper(x) … return v, err` with a helper introduced by a refactoring: the
+	// alternatives are the helper's, rendered over this function's values
+	var call *ssa.Call
+	ridx := 0
+	if ex, ok := v.(*ssa.Extract); ok {
+		if c, ok := ex.Tuple.(*ssa.Call); ok {
+			call, ridx = c, ex.Index
+		}
+	} else if c, ok := v.(*ssa.Call); ok {
+		call = c
+	}
+	if call != nil && depth < 4 {
+		if h := staticCallee(&call.Call); h != nil && h != f && !retAltBusy[h] && P.isNewHelper(h) && ridx < h.Signature.Results().Len() {
+			prev, had := helperCtx[h]
+			setHelperCtx(h, call)
+			retAltBusy[h] = true
+			sub := P.RetAlternatives(h, ridx)
+			delete(retAltBusy, h)
+			if had {
+				helperCtx[h] = prev
+			} else {
+				delete(helperCtx, h)
+			}
+			if len(sub) > 0 {
+				for _, a := range sub {
+					*out = append(*out, RetAlt{a.T, dedupeAtoms(append(append([]Atom{}, g...), a.G...)), ret})
+				}
+				return
+			}
+		}
+	}
+	*out = append(*out, RetAlt{P.TermAt(v, at), g, ret})
 }
 
 // StoredAlternatives lists the ways value v (used by instruction at) is produced. A call to a single-result helper
